@@ -65,7 +65,6 @@ def main():
         meta["ran"].append("VERIF_REPO=<scratch with patch> ./check %s --tier quick -> rc=%d%s"
                            % (c, r.returncode, " VIOLATION " + ", ".join(keys[:3]) if caught else ""))
     meta["checks"] = res
-    sh("find %s/replays -name '*.json' -delete" % VERIF)
     dst = os.path.join(VERIF, "seeded", "%s-%s" % (prop, name))
     os.makedirs(dst, exist_ok=True)
     for f in ("patch.diff", "demo.py", "notes.md"):
